@@ -330,3 +330,15 @@ def main():
 
 if __name__ == "__main__":
     main()
+
+
+# the /repo commit the model and the harness were last validated against (harness/diffhints.py offers the literals of later changes to the generators)
+import subprocess as _sp, os as _os
+_here = _os.path.dirname(_os.path.dirname(_os.path.abspath(__file__)))
+try:
+    _h = _sp.check_output(["git", "-C", "/repo", "rev-parse", "HEAD"], text=True).strip()
+    _dirty = _sp.check_output(["git", "-C", "/repo", "status", "--porcelain", "--", "bandit"], text=True).strip()
+    if not _dirty:
+        open(_os.path.join(_here, "published", "model_commit.txt"), "w").write(_h + "\n")
+except Exception:
+    pass
